@@ -51,13 +51,14 @@ def r1_indentation_everywhere(ctx):
     gk = rd.func("get_load_data_modality_kwargs")
     ctx.analysed(gk)
     rets = [r for r in walk_no_nested(gk, False) if isinstance(r, ast.Return)]
+    from ..symres import Resolver as _Res
+    res_ = _Res(gk)
     table = None
-    for st in walk_no_nested(gk, False):
-        if isinstance(st, ast.Assign) and isinstance(st.value, ast.Dict):
-            table = st.value
-    if table is None and rets and isinstance(rets[0].value, ast.Dict):
+    if len(rets) == 1 and rets[0].value is not None:
         table = rets[0].value
-    if table is None:
+        if isinstance(table, ast.Name):
+            table = res_.reaching_value(table)
+    if not isinstance(table, ast.Dict):
         raise Undecided("get_load_data_modality_kwargs returns no dict "
                         "literal")
     d = {const_str(k): v for k, v in zip(table.keys, table.values)}
@@ -69,6 +70,8 @@ def r1_indentation_everywhere(ctx):
               rd.assign("DEFAULT_MODALITY"), "DEFAULT_MODALITY = "
               "'force-distance'", "default modality changed")
     cls = d.get("data_classes_by_modality")
+    if isinstance(cls, ast.Name):
+        cls = res_.reaching_value(cls)
     # the class table must name the modality literally: DEFAULT_MODALITY is
     # a documented user setting (None = all modalities) and must not decide
     # which class represents force-distance data
